@@ -112,6 +112,11 @@ func runC17(c *Ctx) {
 	checkApplyTable(c)
 	checkApplyUnconditional(c)
 	checkMutatorLocksPaired(c)
+	checkChangeLabelsRecordsOnlyChanges(c)
+	// the text recorded is the text requested, up to what validation refuses (shared with C16)
+	checkCleanupAgreesWithSafe(c)
+	c.Doc("R11.2", "every exported method of the cache entities that stages or commits operations calls notifyUpdated before it succeeds (what later queries list and sort is the excerpt)")
+	checkMutatorsNotify(c, "R11.2")
 
 	rms := w.resolverMethods()
 	if len(rms) == 0 {
@@ -675,4 +680,150 @@ func checkMutatorLocksPaired(c *Ctx) {
 		}
 	}
 	c.Check(n >= 30, "R18.1", "expected:cache-lock-functions", "cache", fmt.Sprintf("%d functions of package cache with lock operations", n), fmt.Sprintf("only %d functions with lock operations found in package cache (reference ≥ 30)", n))
+}
+
+// R17.8: a label-change request records exactly the change. bug.ChangeLabels puts a label into the
+// operation's added list only when it is neither repeated in the request nor already set, and into the
+// removed list only when it is not repeated and is set; a request that changes nothing is refused.
+func checkChangeLabelsRecordsOnlyChanges(c *Ctx) {
+	w := c.W
+	c.Doc("R17.8", "bug.ChangeLabels: the append to the list handed to NewLabelChangeOperation as 'added' ('removed') is unreachable, within the iteration, from the 'already in this request' edge and from the 'already set' ('not set') edge of the membership tests on the request's own list and on the snapshot's labels; the operation is built only after the 'nothing added or removed' refusal")
+	fn := w.Func("entities/bug", "ChangeLabels")
+	if fn == nil {
+		c.Undecided("R17.8", "anchor:bug.ChangeLabels", "entities/bug", "not found")
+		return
+	}
+	c.seeFn(funcName(fn))
+	pos := w.FnPos(fn)
+	var mk *ssa.Call
+	for _, cl := range Calls(fn) {
+		if cl.Name == "entities/bug.NewLabelChangeOperation" {
+			mk, _ = cl.Instr.(*ssa.Call)
+		}
+	}
+	if mk == nil || len(mk.Common().Args) < 4 {
+		c.Undecided("R17.8", "ChangeLabels:operation", pos, "no NewLabelChangeOperation(author, time, added, removed) call found")
+		return
+	}
+	// membership tests: If on a call of a membership predicate (labelExist)
+	type test struct {
+		blk   *ssa.BasicBlock
+		onOwn bool // tested list is the request's own accumulated list
+		list  ssa.Value
+	}
+	for idx, which := range []string{"added", "removed"} {
+		list := mk.Common().Args[2+idx]
+		aps := appendCallsOf(list)
+		if len(aps) == 0 {
+			c.Check(false, "R17.8", "ChangeLabels:"+which, pos, "", "the "+which+" list of the operation is not built by appends")
+			continue
+		}
+		bad := ""
+		nTests := 0
+		for _, ap := range aps {
+			hdr := enclosingLoopHeader(ap.Block())
+			if hdr == nil {
+				bad = "a label is put into the " + which + " list outside the loop over the request"
+				continue
+			}
+			for _, b := range fn.Blocks {
+				if !inLoop(b, hdr) || len(b.Instrs) == 0 {
+					continue
+				}
+				iff, ok := b.Instrs[len(b.Instrs)-1].(*ssa.If)
+				if !ok {
+					continue
+				}
+				neg := false
+				cond := iff.Cond
+				if u, isU := cond.(*ssa.UnOp); isU && u.Op == token.NOT {
+					neg, cond = true, u.X
+				}
+				cv, isCall := cond.(*ssa.Call)
+				if !isCall || len(cv.Common().Args) != 2 {
+					continue
+				}
+				callee := cv.Common().StaticCallee()
+				if callee == nil || membershipPred(callee) == nil {
+					continue
+				}
+				c.Sites++
+				tested := cv.Common().Args[0]
+				own := false
+				for _, a2 := range appendCallsOf(tested) {
+					for _, a1 := range aps {
+						if a1 == a2 {
+							own = true
+						}
+					}
+				}
+				if ph, isPhi := tested.(*ssa.Phi); isPhi {
+					for _, e := range ph.Edges {
+						for _, a1 := range aps {
+							if e == ssa.Value(a1) {
+								own = true
+							}
+						}
+					}
+				}
+				onSnap := hasField(tested, "Labels")
+				if !own && !onSnap {
+					continue
+				}
+				nTests++
+				// the edge after which nothing may be recorded: member of own list (duplicate); for added: member of the snapshot; for removed: not a member
+				skipOnMember := own || which == "added"
+				edge := 0
+				if !skipOnMember {
+					edge = 1
+				}
+				if neg {
+					edge = 1 - edge
+				}
+				if reachWithoutEdge(b.Succs[edge], ap.Block(), func(x *ssa.BasicBlock, s int) bool { return x.Succs[s] == hdr }) || b.Succs[edge] == ap.Block() {
+					what := "is already set on the bug"
+					if own {
+						what = "was already given in this request"
+					} else if which == "removed" {
+						what = "is not set on the bug"
+					}
+					bad = "a label that " + what + " still reaches the " + which + " list (test at " + w.InstrPos(iff) + ")"
+				}
+			}
+		}
+		if nTests < 2 && bad == "" {
+			bad = fmt.Sprintf("only %d membership tests guard the %s list (two expected: the request's own list, the bug's labels)", nTests, which)
+		}
+		c.Check(bad == "", "R17.8", "ChangeLabels:"+which+"-only-real-changes", pos, "recorded only when neither repeated nor already "+map[string]string{"added": "set", "removed": "absent"}[which],
+			bad+": the operation committed under the user's name records a change that did not happen, and a request that changes nothing is no longer refused")
+	}
+	// refusal of the empty change before the operation is built
+	okRefuse := false
+	for _, r := range Returns(fn) {
+		if returnKind(r) != RetError {
+			continue
+		}
+		nLen := 0
+		dom := false
+		for _, cc := range controlConds(r.Block(), nil) {
+			bo, isBo := cc.If.Cond.(*ssa.BinOp)
+			if !isBo {
+				continue
+			}
+			for _, side := range []ssa.Value{bo.X, bo.Y} {
+				if lc, isCall := side.(*ssa.Call); isCall {
+					if bi, isB := lc.Common().Value.(*ssa.Builtin); isB && bi.Name() == "len" && len(appendCallsOf(lc.Common().Args[0])) > 0 {
+						nLen++
+						if cc.If.Block().Dominates(mk.Block()) {
+							dom = true
+						}
+					}
+				}
+			}
+		}
+		if nLen >= 2 && dom {
+			okRefuse = true
+		}
+	}
+	c.Check(okRefuse, "R17.8", "ChangeLabels:empty-change-refused", pos, "a request that adds and removes nothing is refused before an operation is built", "no refusal of an empty change dominates the construction of the operation")
 }
